@@ -9,7 +9,7 @@
    Proofs/WritersDict.v: wf_db (keys, field names, roles unique up to case; every role has a person -- what the API
    builds), map_ids.  Proofs/WritersTree.v: parts_ok p := reparse_person p = Ok p, yaml_ok, xml_ok. *)
 From Pybtex Require Import Base.Prelude Base.PyChar Base.PyStr Model.BibtexStr Model.Names Model.Scanner Model.BibParser Model.Writers
-  Proofs.Writers Proofs.WritersDict Proofs.WritersTree Proofs.WritersQuote Proofs.WritersPerson Proofs.WritersChain Proofs.WritersField Proofs.WritersName Proofs.WritersBib Proofs.WritersNameList Proofs.WritersBibP.
+  Proofs.Writers Proofs.WritersDict Proofs.WritersTree Proofs.WritersQuote Proofs.WritersPerson Proofs.WritersChain Proofs.WritersField Proofs.WritersName Proofs.WritersBib Proofs.WritersNameList Proofs.WritersBibP Proofs.WritersTokens.
 
 (* ---- identifier lower-casing changes nothing but the letter case of keys, entry types, field names, roles *)
 Theorem lower_only_case : forall d, wf_db d -> lower_db d = Ok (map_ids lower d).
@@ -298,3 +298,19 @@ Proof.
     try solve [cbn; intros H; repeat (destruct H as [H|H]; [discriminate H|]); exact H];
     try solve [intros []]; try solve [split; [discriminate|vm_compute; reflexivity]].
 Qed.
+
+(* ---- person_parts_roundtrip, the statement of DESIGN.md: joining the tokens of each part with one space and
+   re-splitting (Person(first=' '.join(first_names), ...)) is the identity for every person whose tokens are
+   [good_tok'] (Proofs/WritersTokens.v): non-empty, every opened brace closed, no leading / trailing whitespace, and no
+   character that separates at brace level 0 -- whitespace, an unescaped tie, a backslash before a space, where the
+   character after the token is taken to be the joining space (so a token may not END in a backslash:
+   person_parts_backslash_refuted).  Braced groups, special characters, ties inside braces and escaped ties are all
+   allowed.  Rests on the C04 builder's tokenizer_spec_all (split_tex_string = map strip . spec_tokens). With it the
+   YAML / BibTeXML glue theorems (hypothesis parts_ok) cover such persons. *)
+Theorem person_parts_roundtrip : forall p, good_person p -> reparse_person p = Ok p.
+Proof. exact person_parts_roundtrip_pf. Qed.
+Print Assumptions person_parts_roundtrip.
+
+Example ex_good_person : good_person braced_person /\ p_first braced_person = [s2l "{\""O}z"] /\
+  p_middle braced_person = [s2l "{A B}"; s2l "a\~b"] /\ p_last braced_person = [s2l "{B and N}"].
+Proof. split; [exact braced_person_good|repeat split]. Qed.
